@@ -807,3 +807,322 @@ example : parsesF64 ['1', 'e', '3'] = true :=
     (by rintro ⟨h, _⟩; cases h)).2.1
 
 end Harper.C02
+
+namespace Harper.C02
+open Harper
+
+/-! ## `Document::parse` on NON-tiling input
+
+The Markdown, masked (comment) and Typst front-ends do not hand `Document::parse` a tiling: their tokens lie inside
+the text (`InBounds`: `start ≤ stop ≤ src.length`) but leave gaps, may be zero-width (the structural
+`ParagraphBreak`s / `Newline`s) and, for Markdown, are not even in order (C02d: only the tokens that cover characters
+are). What each condensing pass does with such input, without the hypothesis `Tiles`:
+
+1. never panics? — `*_total`; `Document::parse` as a whole CAN panic on in-bounds input that is out of order
+   (`condenseAll_panics_unordered`);
+2. every endpoint of every output token stays inside the text, whatever the order — `*_endsInBounds`;
+3. `start ≤ stop` survives — for `condense_spaces` (adjacency check), `condense_pattern` (`TokenStringExt::span` takes
+   minimum and maximum), `newlines_to_breaks`, `match_quotes` on ANY in-bounds input (`*_inBounds`); NOT for
+   `condense_newlines`, `condense_dotted_initialisms`, `condense_number_suffixes` (witnesses below); for every pass and
+   for `Document::parse` when the input is in text order, gaps and zero-width tokens allowed (`Gap`, `*_gap`,
+   `condenseAll_inbounds_sorted`).
+
+`InBounds`, `EndsInBounds`, `Gap`, `SortedIn` are defined in `Lemmas/Condense.lean`; `InBounds src.length` is `InText src`
+of `Lemmas/Leaves.lean` and the in-bounds conclusion of `mdParse_inbounds`; `Gap toks 0 n ↔ SortedIn n toks`
+(`gap_iff_sortedIn`), the `Pairwise` of `SortedIn` being `Sorted` of `Lemmas/Typst.lean`. -/
+
+/-- a ten-character text … -/
+def gappySrc : List Char := ['I', '\'', 'm', ' ', ' ', '2', 'n', 'd', '.', '.']
+
+/-- … and tokens over it that are in order and in bounds but do not tile it: nothing covers `[3, 4)`, and there is a
+zero-width `ParagraphBreak` at 4 -/
+def gappy : List Tok :=
+  [⟨⟨0,1⟩,.word⟩, ⟨⟨1,2⟩,.punct .Apostrophe⟩, ⟨⟨2,3⟩,.word⟩, ⟨⟨4,4⟩,.paragraphBreak⟩, ⟨⟨4,5⟩,.space 1⟩,
+   ⟨⟨5,6⟩,.number 10 none⟩, ⟨⟨6,8⟩,.word⟩, ⟨⟨8,9⟩,.punct .Period⟩, ⟨⟨9,10⟩,.punct .Period⟩]
+
+example : Gap gappy 0 10 ∧ SortedIn 10 gappy ∧ InBounds gappySrc.length gappy ∧ ¬ Tiles gappy 0 10 :=
+  ⟨by decide, gap_iff_sortedIn _ _ |>.mp (by decide), by decide, by decide⟩
+
+/-- what `Document::parse` makes of it: the contraction, the number suffix and the ellipsis are condensed, the gap and
+the zero-width token stay -/
+example : (condenseAll gappySrc gappy).toOption =
+    some [⟨⟨0,3⟩,.word⟩, ⟨⟨4,4⟩,.paragraphBreak⟩, ⟨⟨4,5⟩,.space 1⟩, ⟨⟨5,8⟩,.number 10 (some .nd)⟩,
+      ⟨⟨8,10⟩,.punct .Ellipsis⟩] := by decide
+
+/-! ### 1. never panics -/
+
+/-- `condense_spaces`, `condense_newlines`, `newlines_to_breaks`, `condense_dotted_initialisms` and `match_quotes` are
+plain functions in the model: every index they use is guarded by a length test in the Rust loops, so there is no panic
+path to model, whatever the token vector. (One Rust expression is outside this statement: `a.span.len()` in
+`condense_dotted_initialisms` is `end - start`, which underflows on a word token whose span is reversed; the model
+uses truncated subtraction there. On `InBounds` input it cannot underflow.) -/
+example : (List Tok → List Tok) × (List Tok → List Tok) × (List Tok → List Tok) × (List Tok → List Tok) ×
+    (List Tok → List Tok) := (condenseSpaces, condenseNewlines, newlinesToBreaks, dottedInitialisms, matchQuotes)
+
+/-- `condense_contractions` (`find_all_matches`, `condense_pattern`, `remove_indices`) never panics, on ANY token
+vector and text: the pattern looks at token kinds only, its matches are in range, increasing and disjoint -/
+theorem condenseContractions_total (src : List Char) (toks : List Tok) :
+    ∃ out, condenseContractions src toks = .ok out := condenseContractions_total' src toks
+
+/-- `condense_ellipsis` never panics, on ANY token vector and text -/
+theorem condenseEllipsis_total (src : List Char) (toks : List Tok) :
+    ∃ out, condenseEllipsis src toks = .ok out := condenseEllipsis_total' src toks
+
+/-- neither hypothesis-free theorem is about well-formed input only: reversed, out-of-text, unordered tokens -/
+example : (condenseContractions ['a'] [⟨⟨9,2⟩,.word⟩, ⟨⟨2,7⟩,.punct .Apostrophe⟩, ⟨⟨7,50⟩,.word⟩]).toOption =
+    some [⟨⟨2,50⟩,.word⟩] := by decide
+example : (condenseEllipsis ['a'] [⟨⟨9,2⟩,.punct .Period⟩, ⟨⟨2,7⟩,.punct .Period⟩, ⟨⟨0,50⟩,.word⟩]).toOption =
+    some [⟨⟨2,9⟩,.punct .Ellipsis⟩, ⟨⟨0,50⟩,.word⟩] := by decide
+
+/-- `condense_latin` never panics on in-bounds tokens, in any order, zero-width tokens included (`WordSet` and
+`AnyCapitalization` read the text at the token's span) -/
+theorem condenseLatin_total (src : List Char) (toks : List Tok) (hin : InBounds src.length toks) :
+    ∃ out, condenseLatin src toks = .ok out := condenseLatin_total' src toks hin
+
+/-- non-vacuity of `condenseLatin_total`: `vs.` out of order, with a zero-width word token -/
+example : ∃ out, condenseLatin ['.', 'v', 's'] [⟨⟨3,3⟩,.word⟩, ⟨⟨1,3⟩,.word⟩, ⟨⟨0,1⟩,.punct .Period⟩] = .ok out :=
+  condenseLatin_total _ _ (by decide)
+
+/-- in-bounds is needed: a word token whose span is reversed makes `Span::get_content` (called by `WordSet::matches`)
+panic, and so does one that ends beyond the text -/
+example : (condenseLatin ['a', 'b', 'c'] [⟨⟨2,1⟩,.word⟩]).toOption = none := by decide
+example : (condenseLatin ['a', 'b', 'c'] [⟨⟨2,4⟩,.word⟩]).toOption = none := by decide
+
+/-- `condense_number_suffixes` (with `condense_indices`) never panics on in-bounds tokens, in any order -/
+theorem numberSuffixes_total (src : List Char) (toks : List Tok) (hin : InBounds src.length toks) :
+    ∃ out, numberSuffixes src toks = .ok out := by
+  obtain ⟨out, e, _⟩ := numberSuffixes_gap' src toks hin
+  exact ⟨out, e⟩
+
+/-- non-vacuity of `numberSuffixes_total`: the suffix precedes the number in the text -/
+example : ∃ out, numberSuffixes ['n', 'd', '2'] [⟨⟨2,3⟩,.number 10 none⟩, ⟨⟨0,2⟩,.word⟩, ⟨⟨3,3⟩,.word⟩] = .ok out :=
+  numberSuffixes_total _ _ (by decide)
+
+/-- FALSE for `Document::parse` as a whole: in-bounds but OUT-OF-ORDER tokens can make it panic. A one-letter word
+followed in the vector by a period that precedes it in the text: `condense_dotted_initialisms` writes the period's end
+into the word (`start_tok.span.end = end`), the word's span is reversed (`5..4`), and `condense_latin` →
+`WordSet::matches` → `tok.span.get_content(source)` panics on it. -/
+theorem condenseAll_panics_unordered :
+    InBounds 10 [⟨⟨5,6⟩,.word⟩, ⟨⟨3,4⟩,.punct .Period⟩] ∧
+    dottedInitialisms [⟨⟨5,6⟩,.word⟩, ⟨⟨3,4⟩,.punct .Period⟩] = [⟨⟨5,4⟩,.word⟩] ∧
+    (condenseAll ['1', 'x', 'x', '.', 'x', 'a', 'x', 'x', 'x', 'x'] [⟨⟨5,6⟩,.word⟩, ⟨⟨3,4⟩,.punct .Period⟩]).toOption =
+      none := by decide
+
+/-- … and with a number in front it is `b.span.len()` in `condense_number_suffixes` that underflows -/
+example : (numberSuffixes ['1', 'x', 'x', '.', 'x', 'a', 'x', 'x', 'x', 'x']
+    (dottedInitialisms [⟨⟨0,1⟩,.number 10 none⟩, ⟨⟨5,6⟩,.word⟩, ⟨⟨3,4⟩,.punct .Period⟩])).toOption = none := by decide
+
+/-! ### 2. every endpoint stays inside the text (any input: unordered, overlapping, reversed) -/
+
+/-- `condense_spaces` -/
+theorem condenseSpaces_endsInBounds (n : Nat) (toks : List Tok) (h : EndsInBounds n toks) :
+    EndsInBounds n (condenseSpaces toks) :=
+  condenseRun_all spacesCfg (fun sp => sp.start ≤ n ∧ sp.stop ≤ n) (fun _ _ hs hc _ => ⟨hs.1, hc.2⟩) toks h
+
+/-- `condense_newlines` -/
+theorem condenseNewlines_endsInBounds (n : Nat) (toks : List Tok) (h : EndsInBounds n toks) :
+    EndsInBounds n (condenseNewlines toks) :=
+  condenseRun_all newlinesCfg (fun sp => sp.start ≤ n ∧ sp.stop ≤ n) (fun _ _ hs hc _ => ⟨hs.1, hc.2⟩) toks h
+
+/-- `newlines_to_breaks` -/
+theorem newlinesToBreaks_endsInBounds (n : Nat) (toks : List Tok) (h : EndsInBounds n toks) :
+    EndsInBounds n (newlinesToBreaks toks) :=
+  all_of_spans (newlinesToBreaks_span toks) (fun sp => sp.start ≤ n ∧ sp.stop ≤ n) h
+
+/-- `condense_pattern` (hence `condense_contractions`, `condense_ellipsis`, `condense_latin`), for every pattern: if it
+returns, the endpoints of what it returns are inside the text -/
+theorem condensePattern_endsInBounds (m : Matcher) (edit : Kind → Kind) (src : List Char) (n : Nat)
+    (toks out : List Tok) (h : condensePattern m edit src toks = .ok out) (hin : EndsInBounds n toks) :
+    EndsInBounds n out :=
+  condensePattern_all m edit (fun sp => sp.start ≤ n ∧ sp.stop ≤ n) (hspan_ends n) src toks out h hin
+
+/-- `condense_dotted_initialisms` -/
+theorem dottedInitialisms_endsInBounds (n : Nat) (toks : List Tok) (h : EndsInBounds n toks) :
+    EndsInBounds n (dottedInitialisms toks) :=
+  dottedInitialisms_all (fun sp => sp.start ≤ n ∧ sp.stop ≤ n) (fun _ _ hs hc => ⟨hs.1, hc.2⟩) toks h
+
+/-- `condense_number_suffixes` / `condense_indices` -/
+theorem numberSuffixes_endsInBounds (src : List Char) (n : Nat) (toks out : List Tok)
+    (h : numberSuffixes src toks = .ok out) (hin : EndsInBounds n toks) : EndsInBounds n out :=
+  numberSuffixes_all (fun sp => sp.start ≤ n ∧ sp.stop ≤ n) (fun _ _ hs hc => ⟨hs.1, hc.2⟩) src toks out h hin
+
+/-- `match_quotes` -/
+theorem matchQuotes_endsInBounds (n : Nat) (toks : List Tok) (h : EndsInBounds n toks) :
+    EndsInBounds n (matchQuotes toks) :=
+  all_of_spans (matchQuotes_span toks) (fun sp => sp.start ≤ n ∧ sp.stop ≤ n) h
+
+/-- all passes of `Document::parse`: whatever the token vector handed over — unordered, overlapping, even with
+reversed spans — if both endpoints of every token are inside the text and `Document::parse` returns, both endpoints of
+every token of the `Document` are inside the text -/
+theorem condenseAll_endsInBounds (src : List Char) (n : Nat) (t0 out : List Tok)
+    (h : condenseAll src t0 = .ok out) (hin : EndsInBounds n t0) : EndsInBounds n out :=
+  condenseAll_all (fun sp => sp.start ≤ n ∧ sp.stop ≤ n) (fun _ _ hs hc => ⟨hs.1, hc.2⟩) (hspan_ends n) src t0 out h hin
+
+/-- non-vacuity of the `_endsInBounds` theorems: unordered newlines (the audit's witness) with a reversed token; the
+hypotheses hold, `Document::parse` returns, the conclusion is not trivial (there is a merged token, and it is reversed) -/
+example : EndsInBounds 10 [⟨⟨5,6⟩,.newline 1⟩, ⟨⟨3,3⟩,.newline 2⟩, ⟨⟨9,8⟩,.space 1⟩] ∧
+    (condenseAll gappySrc [⟨⟨5,6⟩,.newline 1⟩, ⟨⟨3,3⟩,.newline 2⟩, ⟨⟨9,8⟩,.space 1⟩]).toOption =
+      some [⟨⟨5,3⟩,.paragraphBreak⟩, ⟨⟨9,8⟩,.space 1⟩] := by decide
+example : ∀ out, condenseAll gappySrc [⟨⟨5,6⟩,.newline 1⟩, ⟨⟨3,3⟩,.newline 2⟩, ⟨⟨9,8⟩,.space 1⟩] = .ok out →
+    EndsInBounds 10 out := fun out h => condenseAll_endsInBounds gappySrc 10 _ out h (by decide)
+
+/-! ### 3. `start ≤ stop` -/
+
+/-- `condense_spaces` keeps in-bounds tokens in bounds IN ANY ORDER: it merges only a child that starts where the run
+ends ("Only condense adjacent spans"), so the merged span cannot be reversed -/
+theorem condenseSpaces_inBounds (n : Nat) (toks : List Tok) (h : InBounds n toks) : InBounds n (condenseSpaces toks) :=
+  condenseRun_all spacesCfg (fun sp => sp.start ≤ sp.stop ∧ sp.stop ≤ n)
+    (fun s c hs hc hadj => by have := hadj rfl; exact ⟨by simp only; omega, hc.2⟩) toks h
+
+/-- non-vacuity of `condenseSpaces_inBounds`: out-of-order spaces, two of them adjacent in the text, one zero-width -/
+example : InBounds 10 [⟨⟨5,6⟩,.space 1⟩, ⟨⟨6,6⟩,.space 0⟩, ⟨⟨6,8⟩,.space 2⟩, ⟨⟨2,3⟩,.space 1⟩] ∧
+    condenseSpaces [⟨⟨5,6⟩,.space 1⟩, ⟨⟨6,6⟩,.space 0⟩, ⟨⟨6,8⟩,.space 2⟩, ⟨⟨2,3⟩,.space 1⟩] =
+      [⟨⟨5,8⟩,.space 3⟩, ⟨⟨2,3⟩,.space 1⟩] := by decide
+
+/-- (a reversed span out of `condense_spaces` needs a reversed span going in) -/
+example : condenseSpaces [⟨⟨5,6⟩,.space 1⟩, ⟨⟨6,2⟩,.space 1⟩] = [⟨⟨5,2⟩,.space 2⟩] := by decide
+
+/-- FALSE for `Document::condense_newlines`, which has no adjacency check: two in-bounds newline tokens that are out of
+order are merged into a REVERSED span (`5..3`). The input has the shape `mdParse_sorted_covering` (C02d) guarantees for
+the Markdown front-end — in bounds, the tokens that cover characters in order, the zero-width token a `Newline` — so
+that shape is not enough. -/
+theorem condenseNewlines_reverses :
+    InBounds 10 [⟨⟨5,6⟩,.newline 1⟩, ⟨⟨3,3⟩,.newline 2⟩] ∧
+    ([⟨⟨5,6⟩,.newline 1⟩, ⟨⟨3,3⟩,.newline 2⟩].filter (fun t : Tok => decide (t.span.start < t.span.stop))).Pairwise
+      (fun a b => a.span.stop ≤ b.span.start) ∧
+    condenseNewlines [⟨⟨5,6⟩,.newline 1⟩, ⟨⟨3,3⟩,.newline 2⟩] = [⟨⟨5,3⟩, .newline 3⟩] ∧
+    ¬ InBounds 10 (condenseNewlines [⟨⟨5,6⟩,.newline 1⟩, ⟨⟨3,3⟩,.newline 2⟩]) := by
+  refine ⟨by decide, by decide, by decide, by decide⟩
+
+/-- `newlines_to_breaks` and `match_quotes` do not touch spans -/
+theorem newlinesToBreaks_inBounds (n : Nat) (toks : List Tok) (h : InBounds n toks) :
+    InBounds n (newlinesToBreaks toks) :=
+  all_of_spans (newlinesToBreaks_span toks) (fun sp => sp.start ≤ sp.stop ∧ sp.stop ≤ n) h
+
+theorem matchQuotes_inBounds (n : Nat) (toks : List Tok) (h : InBounds n toks) : InBounds n (matchQuotes toks) :=
+  all_of_spans (matchQuotes_span toks) (fun sp => sp.start ≤ sp.stop ∧ sp.stop ≤ n) h
+
+/-- `condense_pattern` keeps in-bounds tokens in bounds IN ANY ORDER, for every pattern: the merged span is
+`TokenStringExt::span` of the matched slice — minimum and maximum of all endpoints — so it is never reversed (and since
+c3ef348 only source-contiguous slices are merged at all) -/
+theorem condensePattern_inBounds (m : Matcher) (edit : Kind → Kind) (src : List Char) (n : Nat)
+    (toks out : List Tok) (h : condensePattern m edit src toks = .ok out) (hin : InBounds n toks) : InBounds n out :=
+  condensePattern_all m edit (fun sp => sp.start ≤ sp.stop ∧ sp.stop ≤ n) (hspan_inb n) src toks out h hin
+
+/-- non-vacuity of `condensePattern_inBounds`: `'mI` — the contraction's tokens contiguous in the vector order but
+running backwards in the text are NOT merged (`5..6 4..5` is not contiguous); `I'm` with a zero-width word is -/
+example : InBounds 10 [⟨⟨5,6⟩,.word⟩, ⟨⟨4,5⟩,.punct .Apostrophe⟩, ⟨⟨3,4⟩,.word⟩] ∧
+    (condenseContractions gappySrc [⟨⟨5,6⟩,.word⟩, ⟨⟨4,5⟩,.punct .Apostrophe⟩, ⟨⟨3,4⟩,.word⟩]).toOption =
+      some [⟨⟨5,6⟩,.word⟩, ⟨⟨4,5⟩,.punct .Apostrophe⟩, ⟨⟨3,4⟩,.word⟩] := by decide
+example : InBounds 10 [⟨⟨0,1⟩,.word⟩, ⟨⟨1,2⟩,.punct .Apostrophe⟩, ⟨⟨2,2⟩,.word⟩] ∧
+    (condenseContractions gappySrc [⟨⟨0,1⟩,.word⟩, ⟨⟨1,2⟩,.punct .Apostrophe⟩, ⟨⟨2,2⟩,.word⟩]).toOption =
+      some [⟨⟨0,2⟩,.word⟩] := by decide
+
+/-- FALSE for `Document::condense_dotted_initialisms` (`start_tok.span.end = end`, no adjacency or order check) … -/
+theorem dottedInitialisms_reverses :
+    InBounds 10 [⟨⟨5,6⟩,.word⟩, ⟨⟨3,4⟩,.punct .Period⟩] ∧
+    ¬ InBounds 10 (dottedInitialisms [⟨⟨5,6⟩,.word⟩, ⟨⟨3,4⟩,.punct .Period⟩]) := by decide
+
+/-- … and for `Document::condense_number_suffixes` / `condense_indices`
+(`tokens[idx].span.end = tokens[idx + stretch_len - 1].span.end`): the suffix `nd` lies before the number in the text, the merged span is `5..4` -/
+theorem numberSuffixes_reverses :
+    InBounds 10 [⟨⟨5,6⟩,.number 10 none⟩, ⟨⟨2,4⟩,.word⟩] ∧
+    (numberSuffixes ['x', 'x', 'n', 'd', 'x', '1', 'x', 'x', 'x', 'x'] [⟨⟨5,6⟩,.number 10 none⟩, ⟨⟨2,4⟩,.word⟩]).toOption =
+      some [⟨⟨5,4⟩,.number 10 (some .nd)⟩] := by decide
+
+/-! ### 3'. input in text order, gaps and zero-width tokens allowed: order, `start ≤ stop` and bounds survive -/
+
+/-- `condense_spaces` -/
+theorem condenseSpaces_gap (toks : List Tok) (a b : Nat) (h : Gap toks a b) : Gap (condenseSpaces toks) a b :=
+  condenseSpaces_gap' toks a b h
+
+/-- `condense_newlines` (merges newline tokens that are neighbours in the VECTOR, across a gap in the text) -/
+theorem condenseNewlines_gap (toks : List Tok) (a b : Nat) (h : Gap toks a b) : Gap (condenseNewlines toks) a b :=
+  condenseNewlines_gap' toks a b h
+
+/-- non-vacuity of `condenseSpaces_gap` / `condenseNewlines_gap`: a gap at `[3, 4)` and a zero-width newline -/
+example : Gap [⟨⟨1,2⟩,.space 1⟩, ⟨⟨2,3⟩,.space 1⟩, ⟨⟨4,5⟩,.space 1⟩, ⟨⟨5,5⟩,.newline 1⟩, ⟨⟨7,8⟩,.newline 1⟩] 0 10 ∧
+    condenseNewlines (condenseSpaces
+      [⟨⟨1,2⟩,.space 1⟩, ⟨⟨2,3⟩,.space 1⟩, ⟨⟨4,5⟩,.space 1⟩, ⟨⟨5,5⟩,.newline 1⟩, ⟨⟨7,8⟩,.newline 1⟩]) =
+      [⟨⟨1,3⟩,.space 2⟩, ⟨⟨4,5⟩,.space 1⟩, ⟨⟨5,8⟩,.newline 2⟩] := by decide
+
+/-- `newlines_to_breaks` -/
+theorem newlinesToBreaks_gap (toks : List Tok) (a b : Nat) (h : Gap toks a b) : Gap (newlinesToBreaks toks) a b :=
+  gap_of_spans (newlinesToBreaks_span toks) h
+
+/-- `condense_pattern`, generically (as `condensePattern_tiles`): never panics and keeps the order, when the tokens are
+in order — a matched slice that is not contiguous in the text is left alone -/
+theorem condensePattern_gap (m : Matcher) (edit : Kind → Kind) (src : List Char) (P : List Tok → Prop)
+    (hp : PatOK m src P) (toks : List Tok) (a b : Nat) (hP : P toks) (h : Gap toks a b) :
+    ∃ out, condensePattern m edit src toks = .ok out ∧ Gap out a b :=
+  condensePattern_gap_of m edit src P hp toks a b hP h
+
+/-- `condense_contractions` -/
+theorem condenseContractions_gap (src : List Char) (toks : List Tok) (a b : Nat) (h : Gap toks a b) :
+    ∃ out, condenseContractions src toks = .ok out ∧ Gap out a b := condenseContractions_gap' src toks a b h
+
+/-- `condense_ellipsis` -/
+theorem condenseEllipsis_gap (src : List Char) (toks : List Tok) (a b : Nat) (h : Gap toks a b) :
+    ∃ out, condenseEllipsis src toks = .ok out ∧ Gap out a b := condenseEllipsis_gap' src toks a b h
+
+/-- `condense_latin` -/
+theorem condenseLatin_gap (src : List Char) (toks : List Tok) (a b : Nat) (h : Gap toks a b) (hb : b ≤ src.length) :
+    ∃ out, condenseLatin src toks = .ok out ∧ Gap out a b := condenseLatin_gap' src toks a b h hb
+
+/-- non-vacuity of the three (and of `condensePattern_gap` through them): `I'm` then a gap, a zero-width token and `..` -/
+example : ∃ out, condenseContractions gappySrc gappy = .ok out ∧ Gap out 0 10 :=
+  condenseContractions_gap _ _ 0 10 (by decide)
+example : ∃ out, condenseEllipsis gappySrc gappy = .ok out ∧ Gap out 0 10 := condenseEllipsis_gap _ _ 0 10 (by decide)
+example : ∃ out, condenseLatin gappySrc gappy = .ok out ∧ Gap out 0 10 :=
+  condenseLatin_gap _ _ 0 10 (by decide) (by decide)
+/-- a period right after `I'm` in the vector but two characters further in the text is not an ellipsis partner -/
+example : (condenseEllipsis gappySrc [⟨⟨2,3⟩,.word⟩, ⟨⟨6,7⟩,.punct .Period⟩, ⟨⟨8,9⟩,.punct .Period⟩]).toOption =
+    some [⟨⟨2,3⟩,.word⟩, ⟨⟨6,7⟩,.punct .Period⟩, ⟨⟨8,9⟩,.punct .Period⟩] := by decide
+
+/-- `condense_dotted_initialisms` -/
+theorem dottedInitialisms_gap (toks : List Tok) (a b : Nat) (h : Gap toks a b) : Gap (dottedInitialisms toks) a b :=
+  dottedInitialisms_gap' toks a b h
+
+/-- non-vacuity of `dottedInitialisms_gap`: `a. b.` — the space is missing from the vector, and is swallowed -/
+example : Gap [⟨⟨1,2⟩,.word⟩, ⟨⟨2,3⟩,.punct .Period⟩, ⟨⟨4,5⟩,.word⟩, ⟨⟨5,6⟩,.punct .Period⟩, ⟨⟨6,6⟩,.paragraphBreak⟩] 0 10 ∧
+    dottedInitialisms [⟨⟨1,2⟩,.word⟩, ⟨⟨2,3⟩,.punct .Period⟩, ⟨⟨4,5⟩,.word⟩, ⟨⟨5,6⟩,.punct .Period⟩, ⟨⟨6,6⟩,.paragraphBreak⟩] =
+      [⟨⟨1,6⟩,.word⟩, ⟨⟨6,6⟩,.paragraphBreak⟩] := by decide
+
+/-- `condense_number_suffixes` / `condense_indices`: never panics on in-bounds tokens and keeps ordered tokens ordered -/
+theorem numberSuffixes_gap (src : List Char) (toks : List Tok) (a b : Nat) (h : Gap toks a b) (hb : b ≤ src.length) :
+    ∃ out, numberSuffixes src toks = .ok out ∧ Gap out a b := by
+  obtain ⟨out, e, hg⟩ := numberSuffixes_gap' src toks (h.inBounds hb)
+  exact ⟨out, e, hg a b h⟩
+
+/-- non-vacuity of `numberSuffixes_gap` -/
+example : ∃ out, numberSuffixes gappySrc gappy = .ok out ∧ Gap out 0 10 :=
+  numberSuffixes_gap _ _ 0 10 (by decide) (by decide)
+
+/-- `match_quotes` -/
+theorem matchQuotes_gap (toks : List Tok) (a b : Nat) (h : Gap toks a b) : Gap (matchQuotes toks) a b :=
+  gap_of_spans (matchQuotes_span toks) h
+
+/-- all passes of `Document::parse` on tokens in text order inside `[a, b]` of the text, gaps and zero-width tokens
+allowed: it never panics and the tokens of the `Document` are again in order inside `[a, b]` -/
+theorem condenseAll_gap (src : List Char) (t0 : List Tok) (a b : Nat) (h : Gap t0 a b) (hb : b ≤ src.length) :
+    ∃ out, condenseAll src t0 = .ok out ∧ Gap out a b := condenseAll_gap' src t0 a b h hb
+
+/-- the same in the words of the property: if the tokens handed to `Document::parse` are pairwise ordered
+(`stop ≤ start` of every later token — the `Sorted` of `Lemmas/Typst.lean`), each with `start ≤ stop ≤ src.length`,
+then `Document::parse` returns, and so are the tokens of the `Document`: in bounds, ordered, disjoint -/
+theorem condenseAll_inbounds_sorted (src : List Char) (t0 : List Tok)
+    (hs : t0.Pairwise (fun x y => x.span.stop ≤ y.span.start))
+    (hin : ∀ t ∈ t0, t.span.start ≤ t.span.stop ∧ t.span.stop ≤ src.length) :
+    ∃ out, condenseAll src t0 = .ok out ∧
+      (∀ t ∈ out, t.span.start ≤ t.span.stop ∧ t.span.stop ≤ src.length) ∧
+      out.Pairwise (fun x y => x.span.stop ≤ y.span.start) := by
+  obtain ⟨out, e, h⟩ := condenseAll_gap src t0 0 src.length (SortedIn.gap ⟨hs, hin⟩) (Nat.le_refl _)
+  exact ⟨out, e, h.sortedIn.2, h.sortedIn.1⟩
+
+/-- non-vacuity of `condenseAll_gap` / `condenseAll_inbounds_sorted`: `gappy` (a gap, a zero-width token) -/
+example : ∃ out, condenseAll gappySrc gappy = .ok out ∧
+    (∀ t ∈ out, t.span.start ≤ t.span.stop ∧ t.span.stop ≤ gappySrc.length) ∧
+    out.Pairwise (fun x y => x.span.stop ≤ y.span.start) :=
+  condenseAll_inbounds_sorted gappySrc gappy (gap_iff_sortedIn 10 gappy |>.mp (by decide)).1 (by decide)
+
+end Harper.C02
